@@ -232,12 +232,24 @@ class Threadless(ABC, Generic[T]):
         unfinished_work_ids = set()
         for task in self.unfinished:
             unfinished_work_ids.add(task._work_id)   # type: ignore
+        broken_work_ids: List[int] = []
         for work_id in self.works:
             # We don't want to invoke work objects which haven't
             # yet finished their previous task
             if work_id in unfinished_work_ids:
                 continue
-            await self._update_work_events(work_id)
+            try:
+                await self._update_work_events(work_id)
+            except Exception as exc:
+                # A misbehaving work must not bring down the
+                # event loop shared with every other work.
+                logger.exception(
+                    'Exception while updating events for work#{0}'.format(work_id),
+                    exc_info=exc,
+                )
+                broken_work_ids.append(work_id)
+        for work_id in broken_work_ids:
+            self._cleanup(work_id)
         await self._update_conn_pool_events()
 
     async def _selected_events(self) -> Tuple[
@@ -298,7 +310,15 @@ class Threadless(ABC, Generic[T]):
     def _cleanup_inactive(self) -> None:
         inactive_works: List[int] = []
         for work_id in self.works:
-            if self.works[work_id].is_inactive():
+            try:
+                inactive = self.works[work_id].is_inactive()
+            except Exception as exc:
+                logger.exception(
+                    'Exception while checking activity of work#{0}'.format(work_id),
+                    exc_info=exc,
+                )
+                inactive = True
+            if inactive:
                 inactive_works.append(work_id)
         for work_id in inactive_works:
             self._cleanup(work_id)
@@ -313,13 +333,25 @@ class Threadless(ABC, Generic[T]):
                         fileno, work_id,
                     ),
                 )
-                self.selector.unregister(fileno)
+                try:
+                    self.selector.unregister(fileno)
+                except (KeyError, ValueError, OSError):
+                    # Descriptor is already closed or gone
+                    pass
             self.registered_events_by_work_ids[work_id].clear()
             del self.registered_events_by_work_ids[work_id]
-        self.works[work_id].shutdown()
-        del self.works[work_id]
-        if self.work_queue_fileno() is not None:
-            os.close(work_id)
+        try:
+            self.works[work_id].shutdown()
+        except Exception as exc:
+            # Shutdown errors of one work are not fatal for the loop
+            logger.exception(
+                'Exception while shutting down work#{0}'.format(work_id),
+                exc_info=exc,
+            )
+        finally:
+            del self.works[work_id]
+            if self.work_queue_fileno() is not None:
+                os.close(work_id)
 
     def _create_tasks(
             self,
